@@ -42,7 +42,7 @@ ASSUMPTIONS = [
 def budget(tier):
     if tier == "quick":
         return {"examples": 640, "shards": 16, "time_s": 60}
-    return {"examples": 12800, "shards": 16, "time_s": 900}
+    return {"examples": 64000, "shards": 16, "time_s": 1500}
 
 
 DECOR = ["plain", "flank", "termflank", "bracket", "paren", "dotmod", "lower", "nterm", "twomods", "twomods-flank"]
